@@ -110,6 +110,21 @@ func singleStore(cell *ssa.Alloc) ssa.Value {
 			val = st.Val
 			n++
 		}
+		// partial writes through field/element addresses make the content unknown
+		switch a := r.(type) {
+		case *ssa.FieldAddr:
+			for _, r2 := range nonDebugRefs(a) {
+				if st, ok := r2.(*ssa.Store); ok && st.Addr == a {
+					return nil
+				}
+			}
+		case *ssa.IndexAddr:
+			for _, r2 := range nonDebugRefs(a) {
+				if st, ok := r2.(*ssa.Store); ok && st.Addr == a {
+					return nil
+				}
+			}
+		}
 	}
 	if n == 1 {
 		return val
@@ -131,13 +146,12 @@ func (tb *Terms) of(v ssa.Value, d int) *Term {
 	case *ssa.Parameter:
 		return &Term{Op: "Param", Name: paramName(x.Parent(), x), V: v}
 	case *ssa.FreeVar:
-		// resolve through the closure creation site
+		// resolve through the closure creation site: the free variable is the binding
 		fn := x.Parent()
 		if mc := tb.p.ClosureSite(fn); mc != nil {
 			for i, fv := range fn.FreeVars {
 				if fv == x && i < len(mc.Bindings) {
-					inner := tb.of(mc.Bindings[i], d+1)
-					return &Term{Op: "FreeVar", Name: x.Name(), Args: []*Term{inner}, V: v}
+					return tb.of(mc.Bindings[i], d+1)
 				}
 			}
 		}
@@ -157,7 +171,7 @@ func (tb *Terms) of(v ssa.Value, d int) *Term {
 	case *ssa.MakeClosure:
 		return &Term{Op: "Closure", Name: funcShort(x.Fn.(*ssa.Function)), V: v}
 	case *ssa.Alloc:
-		if sv := singleStore(x); sv != nil && !isAggregate(x) {
+		if sv := singleStore(x); sv != nil {
 			// &cell of a captured variable: describe by content
 			return &Term{Op: "Cell", Args: []*Term{tb.of(sv, d+1)}, V: v}
 		}
@@ -184,16 +198,11 @@ func (tb *Terms) of(v ssa.Value, d int) *Term {
 			a := tb.of(x.X, d+1)
 			switch a.Op {
 			case "FieldAddr":
-				return &Term{Op: "Field", Name: a.Name, Args: a.Args, V: v}
+				return &Term{Op: "Field", Name: a.Name, Args: []*Term{uncell(a.Args[0])}, V: v}
 			case "IndexAddr":
 				return &Term{Op: "Index", Args: a.Args, V: v}
 			case "Cell":
 				return a.Args[0]
-			case "FreeVar":
-				if len(a.Args) == 1 && a.Args[0].Op == "Cell" {
-					return a.Args[0].Args[0]
-				}
-				return &Term{Op: "Load", Args: []*Term{a}, V: v}
 			}
 			return &Term{Op: "Load", Args: []*Term{a}, V: v}
 		}
@@ -259,6 +268,25 @@ func (tb *Terms) of(v ssa.Value, d int) *Term {
 	case *ssa.MakeChan:
 		return &Term{Op: "Make", Name: "chan", V: v}
 	case *ssa.Slice:
+		if al, ok := x.X.(*ssa.Alloc); ok && (al.Comment == "varargs" || al.Comment == "slicelit") {
+			// a variadic argument array or slice literal: describe it by the values stored in it
+			t := &Term{Op: "Varargs", V: v}
+			if al.Comment == "slicelit" {
+				t.Op = "SliceLit"
+			}
+			if refs := al.Referrers(); refs != nil {
+				for _, ref := range *refs {
+					if ia, ok := ref.(*ssa.IndexAddr); ok && ia.Referrers() != nil {
+						for _, r2 := range *ia.Referrers() {
+							if st, ok := r2.(*ssa.Store); ok && st.Addr == ia {
+								t.Args = append(t.Args, tb.of(st.Val, d+1))
+							}
+						}
+					}
+				}
+			}
+			return t
+		}
 		return &Term{Op: "Slice", Args: []*Term{tb.of(x.X, d+1)}, V: v}
 	case *ssa.Range:
 		return &Term{Op: "Range", Args: []*Term{tb.of(x.X, d+1)}, V: v}
